@@ -20,9 +20,13 @@ func H_c07_shared() {
 	vp.Observe("src", b)
 	vp.FreezeFresh(m)
 	var o1, o2, o3 bytes.Buffer
+	vp.NewCall()
 	e1 := m.Convert(b, &o1)
+	vp.NewCall()
 	e2 := m.Convert(b, &o2)
+	vp.NewCall()
 	doc := m.Parser().Parse(text.NewReader(b))
+	vp.NewCall()
 	e3 := m.Renderer().Render(&o3, b, doc)
 	vp.Unfreeze()
 	vp.Assert(e1 == nil && e2 == nil && e3 == nil, "conversion returned an error")
